@@ -212,3 +212,22 @@ def seq_mapi(xs, f):
 
 def stoi(s):
     return int(s)
+
+
+def typed_is_str(x):
+    return isinstance(x, str)
+
+
+def re_matches(pattern, text):
+    import re
+    return re.match(pattern, text) is not None
+
+
+def re_group1(pattern, text):
+    import re
+    m = re.match(pattern, text)
+    return m.group(1) if m else ""
+
+
+def ghost(name, *args):
+    raise NotImplementedError("ghost functions have no run-time reading")
